@@ -1315,9 +1315,28 @@ pub fn bellman(args: &[String]) -> i32 {
                 excluded += 1;
                 continue;
             }
-            writeln!(w, "{}", json!({"ev":"bellman","fen":proj::project6(b),"pos":proj::project_struct(b),"d":d,"v":clamp(v),
+            // the same root through the PUBLIC entry point (iterative deepening 1..d on a fresh engine): what a user's
+            // `go depth d` computes.  Judged only when its last iteration reused no entry searched deeper than required.
+            let publ = catch_unwind(AssertUnwindSafe(|| {
+                s.verif_reset();
+                crate::search::verif::reset_counters();
+                let (pv, pm) = s.find_best_move(b, d, None);
+                (pv, pm, crate::search::verif::counters().1)
+            }));
+            let mut ev = json!({"ev":"bellman","fen":proj::project6(b),"pos":proj::project_struct(b),"d":d,"v":clamp(v),
                                      "move":mv.map(|m| proj::move_text(&m)).unwrap_or_else(|| "-".into()),"kids":kids,
-                                     "excluded_deeper_entry_reused":excluded})).ok();
+                                     "excluded_deeper_entry_reused":excluded});
+            match publ {
+                Ok((pv, pm, 0)) => {
+                    ev["pub"] = json!([clamp(pv), pm.map(|m| proj::move_text(&m)).unwrap_or_else(|| "-".into())]);
+                }
+                Ok(_) => {}
+                Err(_) => {
+                    ev["pub"] = json!([99999999, "panic"]);
+                    s = Searcher::new();
+                }
+            }
+            writeln!(w, "{}", ev).ok();
         }
     }
     w.flush().ok();
